@@ -37,3 +37,25 @@ class Interner:
             self.tok[v] = len(self.val) + 1
             self.val.append(v)
         return self.tok[v]
+
+
+class verbose_logging:
+    """context manager: the batchie logger at DEBUG (what --verbose sets in every command), output discarded.
+    Behaviour must not depend on how verbose a run is."""
+
+    def __enter__(self):
+        import logging
+        self.lg = logging.getLogger("batchie")
+        self.prev = (logging.root.manager.disable, self.lg.level)
+        self.h = logging.NullHandler()
+        logging.disable(logging.NOTSET)
+        self.lg.setLevel(logging.DEBUG)
+        self.lg.addHandler(self.h)
+        return self
+
+    def __exit__(self, *a):
+        import logging
+        self.lg.removeHandler(self.h)
+        self.lg.setLevel(self.prev[1])
+        logging.disable(self.prev[0])
+        return False
